@@ -19,7 +19,7 @@ def qlen(tier):
 
 
 def units(tier, seed):
-    us = joint.units(tier, seed, hist_depth=1, hook=True, shared_records=True)
+    us = joint.units(tier, seed, hist_depth=1, hook=True, shared_records=True, empty_delim=True)
     for u in us:
         u["qlen"] = qlen(tier)
     return us
